@@ -137,21 +137,20 @@ def r2(ctx):
 
 
 def r3(ctx):
-    for fn in ("function::Variant::to_int", "function::Variant::to_float"):
-        hir = ctx.anchor_hir(fn)
-        cs = calls_to(hir, PARSE_FILESIZE)
-        ok = False
-        for c in cs:
-            gs = guards_of(hir, c) or []
-            # reached in the non-Ok arm of the plain numeric parse
-            if any(g[0] == "match" and "parse" in render(g[1]) or (g[0] == "match" and render_pat(g[2]) == "_") for g in gs):
-                ok = True
+    """a literal that is not a plain number is read as a size: Variant::to_int / to_float evaluated (finite interpreter) on the
+    texts "42", "2k" and "abc" with parse_filesize mocked by its contract"""
+    import extra
+    tbl = extra.variant_coercion_table(ctx)
+    for fn in ("to_int", "to_float"):
+        res = {s["string_value"]: got for s, want, got in tbl[fn] if s["int_value"] == extra.interp_none() and s["float_value"] == extra.interp_none()}
+        plain = res.get("42") if fn == "to_int" else res.get("2.5")
+        ok = res.get("2k") in (2000, 2000.0) and plain in (42, 2.5) and res.get("abc") in (0, 0.0) and not isinstance(res.get("2k"), str)
         ctx.obligation(ok)
-        ctx.covered("literal coercion %s falls back to parse_filesize" % short(fn), 1, distinct_keys=[fn])
+        ctx.covered("literal coercion Variant::%s on plain number / size literal / garbage" % fn, 3, distinct_keys=[fn])
         if not ok:
-            ctx.violation("coercion/%s" % short(fn, 1), ctx.where(fn),
-                          "%s does not fall back to parse_filesize for literals that are not plain numbers: "
-                          "`size > 1k` would compare with 0" % short(fn))
+            ctx.violation("coercion/%s" % fn, ctx.where("function::Variant::" + fn),
+                          "Variant::%s does not fall back to parse_filesize for literals that are not plain numbers: "
+                          "`size > 2k` would compare with %r (texts -> values: %s)" % (fn, res.get("2k"), res))
 
 
 FORMAT_UNITS = {
